@@ -46,6 +46,10 @@ POOLS = {
     # a two-byte letter at every byte offset from 1 to 7: slicing a name at a fixed byte position must not land inside it
     "offsets": ["aé", "abcé", "abcdeé", "abcdefgé"],
     # names that collide after separator replacement and end in a number one past u32 / u64
+    # element names whose struct name is an entry of a derive list
+    # two colons in one name: the local name starts after the first one
+    "colons": ["a:b:c", "b:c", "a:b"],
+    "derivenames": ["Clone", "debug", "Serialize", "Deserialize"],
     "bignum": ["n_4294967296", "n-4294967296", "n.18446744073709551616", "n_18446744073709551616"],
     "depth": ["a"],
     "underscore": ["_", "a", "a1"],
@@ -56,7 +60,7 @@ POOLS = {
     "suffixgap": ["foo", "Foo", "FOO", "foo_3"],
     "attrcase": ["ID", "Id", "item"],
 }
-ATTRS = {"bignum": ["n_4294967296", "n-4294967296"], "offsets": ["abé", "abcdé", "abcdeé", "abcdefé"], "kwjoin": ["type", "b_type"], "digitlocal": ["type", "n:2b"], "attrsame": ["a", "b"], "kwparent": ["type", "loop"], "kwsibling": ["item_type", "type"], "keywords2": ["type", "ref"], "keywords3": ["in", "use"], "keywords4": ["enum", "static"], "keywords5": ["for", "let"],
+ATTRS = {"colons": ["x:y:z", "y:z"], "bignum": ["n_4294967296", "n-4294967296"], "offsets": ["abé", "abcdé", "abcdeé", "abcdefé"], "kwjoin": ["type", "b_type"], "digitlocal": ["type", "n:2b"], "attrsame": ["a", "b"], "kwparent": ["type", "loop"], "kwsibling": ["item_type", "type"], "keywords2": ["type", "ref"], "keywords3": ["in", "use"], "keywords4": ["enum", "static"], "keywords5": ["for", "let"],
          "keywords6": ["mod", "pub"], "keywords7": ["struct", "true"], "keywords8": ["where", "while"], "keywords9": ["virtual", "yield"],
          "digits": ["a1", "A1"], "suffixlit": ["foo", "foo_attr"], "suffixgap": ["foo"], "xmlnsish": ["xml:lang", "x:p", "xmlns:n", "xmlnsx:q"], "attrcase": ["id", "Id"], "default": ["p"], "fields": ["text", "type"], "fields2": ["p", "type"], "prefixed": ["xmlns:n", "n:p"]}
 
